@@ -74,9 +74,13 @@ func validateFixed(profile, data string) call {
 }
 
 func compileProfile(profile string) (q *rego.PreparedEvalQuery, c call) {
+	return compileProfileDebug(profile, false)
+}
+
+func compileProfileDebug(profile string, debug bool) (q *rego.PreparedEvalQuery, c call) {
 	c = guard(func() (string, error) {
 		var err error
-		q, err = pkg.CompileProfile(profile, false, nil)
+		q, err = pkg.CompileProfile(profile, debug, nil)
 		return "", err
 	})
 	return
